@@ -47,7 +47,7 @@ func (rl *Shell) standardCommands() commands {
 		"next-screen-line":     rl.downLine,
 		"clear-screen":         rl.clearScreen,
 		"clear-display":        rl.clearDisplay,
-		"redraw-current-line":  rl.Display.Refresh,
+		"redraw-current-line":  rl.redrawCurrentLine,
 
 		// Changing text
 		"end-of-file":                  rl.endOfFile,
@@ -805,6 +805,11 @@ func (rl *Shell) keywordSwitch(increase bool) {
 		bpos--
 	}
 
+	// There might be no word to select at all.
+	if bpos < 0 || bpos > epos || epos > rl.line.Len() {
+		return
+	}
+
 	// Get the selection string
 	selection := string((*rl.line)[bpos:epos])
 
@@ -1430,6 +1435,13 @@ func (rl *Shell) insertComment() {
 
 	// Either case, accept the line as it is.
 	rl.acceptLineWith(false, false)
+}
+
+// Refresh the current line.
+func (rl *Shell) redrawCurrentLine() {
+	// The display engine does not exist yet when commands are
+	// registered: don't bind its method as the command directly.
+	rl.Display.Refresh()
 }
 
 // Print all of the functions and their key bindings to the
